@@ -46,6 +46,22 @@ func mapProtocol(r *Run, prop string, idx int) *core.Report {
 	p11Absence(r, rep, prop+".P11", mm)
 	p3Helpers(r, rep, prop+".P3", mm)
 	p12WordWidth(r, rep, prop+".P12")
+	if mm.LockKind == "spin" {
+		// the packed top-hash word's bit layout for the analysed target (same evaluation as C11.L2b)
+		if obj := r.P.Xsync.Pkg.Scope().Lookup(mm.BucketT[len(mm.BucketT)-1]); obj != nil {
+			if st := core.StructOf(obj.Type()); st != nil {
+				n := 0
+				for i := 0; i < st.NumFields(); i++ {
+					if at, ok := st.Field(i).Type().(*types.Array); ok {
+						n = int(at.Len())
+					}
+				}
+				tmp := core.NewReport(prop)
+				c11MaskLayout(r, tmp, n)
+				borrow(rep, tmp, prop+".P10", "C11.L2b")
+			}
+		}
+	}
 	if idx == 1 {
 		// P13 (generic keys): keys that compare equal hash equal under every seed (restated from C10)
 		n13 := borrow(rep, C10(r), prop+".P13", "C10.H")
